@@ -152,6 +152,12 @@ pub mod tab {
 
     /// The Tab relation R(pre, names, cap, post). `names` are the candidate
     /// command names. Returns Err(reason) if `post` is not an allowed outcome.
+    ///
+    /// Only what the statement says is demanded: which non-blank text the line holds
+    /// afterwards, whether a blank was added, that nothing typed is altered and that
+    /// the buffer is not exceeded. Where the cursor ends up and what happens to blanks
+    /// that were already to the right of the cursor is left to the implementation (the
+    /// screen must agree with it - C06).
     pub fn check(pre: &Line, names: &[&str], cap: usize, post: &Line) -> Result<(), String> {
         let unchanged = post == pre;
 
@@ -163,17 +169,6 @@ pub mod tab {
         let nb_post: Vec<char> = post.text.iter().copied().filter(|c| *c != ' ').collect();
         if !nb_post.starts_with(&nb_pre) {
             return Err("non-blank characters already typed were altered or removed".into());
-        }
-        if post.cursor != pre.cursor && post.cursor != post.text.len() {
-            return Err(format!(
-                "cursor at {} is neither where it was ({}) nor at the end ({})",
-                post.cursor,
-                pre.cursor,
-                post.text.len()
-            ));
-        }
-        if post.text.len() > pre.text.len() && post.cursor != post.text.len() {
-            return Err("line grew but cursor is not at its end".into());
         }
 
         // --- decompose the line ---
@@ -231,32 +226,66 @@ pub mod tab {
 
         let k = common(&m);
         let unique = m.len() == 1;
+        // the same name offered twice (a user command called `help` next to the built-in one):
+        // whether that is "one name" is not something the statement settles
+        let same_name_twice = m.len() > 1 && m.iter().all(|x| *x == m[0]);
 
-        // completed line: base ++ K ++ (" " iff unique and it fits)
+        // the line afterwards: its text without trailing blanks, and how many blanks follow
+        let mut pend = post.text.len();
+        while pend > 0 && post.text[pend - 1] == ' ' {
+            pend -= 1;
+        }
+        let ptext: &[char] = &post.text[..pend];
+        let ptrail = post.text.len() - pend;
+
         let mut full: Vec<char> = base.to_vec();
         full.extend_from_slice(&k);
         if ulen(&full) <= cap {
-            if unique && ulen(&full) + 1 <= cap {
-                full.push(' ');
+            // the longest common continuation fits: it must be there, in full
+            if ptext != full.as_slice() {
+                return Err(format!(
+                    "expected the word to become {:?} ({} candidate(s), common continuation {:?}), got {:?}",
+                    full.iter().collect::<String>(),
+                    m.len(),
+                    k.iter().collect::<String>(),
+                    post.string()
+                ));
             }
-            if post.text == full {
-                return Ok(());
+            if unique {
+                // a trailing space exactly when one name matches and there is room for it
+                let room = ulen(&full) + 1 <= cap;
+                if room && ptrail == 0 {
+                    return Err(format!("one name matches and there is room, but no trailing space: {:?}", post.string()));
+                }
+                if ptrail > trailing.max(1) {
+                    return Err(format!("more than one blank added: {:?} -> {:?}", pre.string(), post.string()));
+                }
+            } else if same_name_twice {
+                if ptrail > trailing.max(1) {
+                    return Err(format!("more than one blank added: {:?} -> {:?}", pre.string(), post.string()));
+                }
+            } else if ptrail > trailing {
+                return Err(format!(
+                    "{} names match but a trailing space was added: {:?} -> {:?}",
+                    m.len(),
+                    pre.string(),
+                    post.string()
+                ));
             }
+            return Ok(());
+        }
+
+        // K does not fit: the word unchanged, or extended by a proper prefix of K; no blank added
+        if ptrail > trailing {
             return Err(format!(
-                "expected {:?} ({} candidate(s), common continuation {:?}), got {:?}",
-                full.iter().collect::<String>(),
-                m.len(),
+                "the continuation {:?} does not fit (cap {}) but a blank was added: {:?}",
                 k.iter().collect::<String>(),
+                cap,
                 post.string()
             ));
         }
-
-        // K does not fit: unchanged, or base ++ proper prefix of K, no blank added
-        if unchanged {
-            return Ok(());
-        }
-        if post.text.starts_with(base) {
-            let added = &post.text[base.len()..];
+        if ptext.starts_with(base) {
+            let added = &ptext[base.len()..];
             if added.len() < k.len() && k.starts_with(added) {
                 return Ok(());
             }
@@ -325,5 +354,11 @@ mod tests {
         let pre = Line { text: "s ".chars().collect(), cursor: 1 };
         assert!(tab::check(&pre, &names, 9, &pre).is_err());
         assert!(tab::check(&pre, &names, 9, &Line::at_end("set ")).is_ok());
+        // blanks that were right of the cursor may stay; the cursor may be anywhere
+        let pre = Line { text: "g   ".chars().collect(), cursor: 1 };
+        assert!(tab::check(&pre, &names, 32, &Line { text: "get-   ".chars().collect(), cursor: 4 }).is_ok());
+        assert!(tab::check(&pre, &names, 32, &Line::at_end("get-")).is_ok());
+        assert!(tab::check(&pre, &names, 32, &Line::at_end("get-    ")).is_err());
+        assert!(tab::check(&Line::at_end("g"), &names, 32, &Line::at_end("get- ")).is_err());
     }
 }
